@@ -32,7 +32,7 @@ func genBase(rt *rapid.T, fam string) *Scenario {
 		sc.HostKey = rapid.Bool().Draw(rt, "hostkey")
 		sc.EnablePass = rapid.Bool().Draw(rt, "enablePass")
 	case "ios":
-		p := iosm.GenPair(rt, iosm.GenOpts{MaxLines: 4})
+		p := iosm.GenPair(rt, iosm.GenOpts{MaxLines: 4, RoutingOnlyIn: 4})
 		sc.Device = p.A.Print(p.Sp)
 		sc.Target["router"] = p.B.NetspocText()
 		sc.HostKey = rapid.Bool().Draw(rt, "hostkey")
